@@ -19,7 +19,8 @@ NROLES, NPOLS = 3, 4
 RULE = ("histories of 8-30 ops over 1-3 subjects (user:u1, u2, u10, u1x; some never defined), 1-3 roles, 1-4 policies "
         "(1-3 objects each, type-level (key '') and instance-level, over types channel/chan/rack/range and the zero "
         "id; 1-3 actions): create/delete role and policy (also delete-then-recreate with the same key), SetOnRole, "
-        "Assign/Unassign, define/delete subject, begin/commit/abort, interleaved with Enforce requests (0-3 objects "
+        "Assign/Unassign, define/delete subject, making the Users group a parent of subjects / policies (non-role "
+        "parents must grant nothing), begin/commit/abort, interleaved with Enforce requests (0-3 objects "
         "mixing covered and uncovered ones, through the open transaction and against the committed view) so that a "
         "check follows directly on a change. Non-trivial = at least one Allow and one Deny verdict and a revocation "
         "(unassign / delete role / delete policy / delete subject / abort) after an Allow; distinct by hash.")
@@ -99,6 +100,14 @@ def gen_case(rng):
         for r in range(1, nr + 1):
             if rng.random() < 0.5:
                 ops.append({"op": "assign", "s": mkid(s), "r": r})
+    if rng.random() < 0.3:
+        # the real layout: users are children of the Users group; sometimes a policy is moved there too
+        for s in subs:
+            if rng.random() < 0.7:
+                ops.append({"op": "gadd", "s": mkid(s)})
+        for p in range(1, np_ + 1):
+            if rng.random() < 0.4:
+                ops.append({"op": "gadd", "k": p, "s": mkid(("", ""))})
     for _ in range(rng.randrange(4, 16)):
         x = rng.random()
         if x < 0.45:
@@ -121,8 +130,16 @@ def gen_case(rng):
         elif x < 0.85:
             ops.append({"op": "seton", "r": rng.randrange(1, nr + 1),
                         "ks": rng.sample(range(1, np_ + 2), rng.choice([1, 2]))})
-        elif x < 0.89:
+        elif x < 0.88:
             ops.append({"op": rng.choice(["delsubject", "subject"]), "s": mkid(rng.choice(subs))})
+        elif x < 0.93:
+            # the Users group becomes (or stops being) a parent of a subject / of a policy: parents that are
+            # not roles must not grant anything
+            if rng.random() < 0.5:
+                ops.append({"op": rng.choice(["gadd", "gadd", "gremove"]), "s": mkid(rng.choice(subs))})
+            else:
+                ops.append({"op": rng.choice(["gadd", "gadd", "gremove"]), "k": rng.randrange(1, np_ + 1),
+                            "s": mkid(("", ""))})
         elif in_tx:
             ops.append({"op": rng.choice(["commit", "commit", "abort"])})
             in_tx = False
@@ -199,6 +216,9 @@ def c_op(o):
         return "RSubject %s" % c_id(o["s"])
     if k == "delsubject":
         return "RDelSubject %s" % c_id(o["s"])
+    if k in ("gadd", "gremove"):
+        tgt = "(policy_id %s)" % c_key(o["k"]) if o.get("k") else c_id(o["s"])
+        return "%s %s" % ("RGroupAdd" if k == "gadd" else "RGroupRemove", tgt)
     if k == "enforce":
         return "REnforce %s %s %s %s" % (c_id(o["s"]), c_word(o["act"]), clist([c_id(x) for x in o.get("objs") or []]),
                                          cbool(o.get("committed")))
